@@ -170,8 +170,8 @@ class C03(Check):
             if case["kind"] == "history":
                 return self.history_oracle(case, sc)
             if case["kind"] == "program":
-                from .. import qprog
-                return qprog.c03_program_oracle(self, case, sc)
+                from .. import qchecks
+                return qchecks.c03_program_oracle(self, case, sc)
         return None
 
     def search(self, tier, seed):
@@ -190,11 +190,8 @@ def _worker(widx, wseed, tier, check):
         f = hyp_search(history(6 if quick else 9, 25 if quick else 40), prop, wseed, 600 if quick else 12000, stats)
         if f:
             failures.append(f)
-        try:
-            from .. import qprog
-        except ImportError:
-            qprog = None
-        if qprog is not None and hasattr(qprog, "c03_program_search"):
+        from .. import qchecks as qprog
+        if True:
             f = qprog.c03_program_search(check, sc, derive_seed(wseed, "prog"), 150 if quick else 3000, stats)
             if f:
                 failures.append(f)
